@@ -179,8 +179,8 @@ func (p *c17parkPolicy) Reset(host *gocql.HostInfo) {}
 
 func closeParked(c *runner.Ctx, i int) {
 	r := c.Rng
-	mode := i % 2
-	name := []string{"control-reconnect-waiting-for-system.local", "refill-failed-waiting-for-conviction"}[mode]
+	mode := i % 3
+	name := []string{"control-reconnect-waiting-for-system.local", "refill-failed-waiting-for-conviction", "control-heartbeat-unanswered"}[mode]
 	cl := fakenode.NewCluster(2)
 	ctl := perturb.Install(c.Seed*31+int64(i), []int{0, 20}[r.Intn(2)], time.Millisecond, &c.Activity)
 	defer perturb.Uninstall()
@@ -195,6 +195,8 @@ func closeParked(c *runner.Ctx, i int) {
 	letGo := func() { relOnce.Do(func() { close(release) }) }
 	defer letGo()
 	var armed int32
+	var hbMu sync.Mutex
+	var hbConn *fakenode.ServerConn
 	if mode == 0 {
 		// without events no REGISTER follows the system.local query, so nothing else of the set-up can fail
 		cfg.Events.DisableNodeStatusEvents, cfg.Events.DisableTopologyEvents, cfg.Events.DisableSchemaEvents = true, true, true
@@ -208,8 +210,27 @@ func closeParked(c *runner.Ctx, i int) {
 			}
 			return nil
 		}
-	} else {
+	} else if mode == 1 {
 		cfg.ConvictionPolicy = &c17parkPolicy{arrived: arrived, release: release}
+	} else {
+		// the node stops answering the control connection's heartbeat (OPTIONS, one second after the connection was
+		// set up): the request is in flight when Close is called and then fails - by its timeout, or because the
+		// connection breaks under it
+		for _, n := range cl.Nodes {
+			n.OnHandshake = func(sc *fakenode.ServerConn, op byte) bool {
+				if op != cqlref.OpOptions || !sc.Ready() || !sc.Control() {
+					return false
+				}
+				hbMu.Lock()
+				hbConn = sc
+				hbMu.Unlock()
+				select {
+				case arrived <- struct{}{}:
+				default:
+				}
+				return true
+			}
+		}
 	}
 	var sess *gocql.Session
 	var err error
@@ -239,7 +260,7 @@ func closeParked(c *runner.Ctx, i int) {
 		}
 		atomic.StoreInt32(&armed, 1)
 		conns[0].Close() // the first connection dialled is the control connection
-	} else {
+	} else if mode == 1 {
 		n := cl.Nodes[1]
 		n.SetDown(true)
 		for _, sc := range n.OpenConns() {
@@ -266,6 +287,15 @@ func closeParked(c *runner.Ctx, i int) {
 	case <-time.After(time.Duration(5+r.Intn(40)) * time.Millisecond):
 	}
 	letGo()
+	if mode == 2 && i%2 == 0 {
+		// the connection breaks under the unanswered heartbeat (otherwise it ends by its timeout)
+		hbMu.Lock()
+		sc := hbConn
+		hbMu.Unlock()
+		if sc != nil {
+			sc.Close()
+		}
+	}
 	<-closed // the hang detector owns the verdict if this never returns
 	c.Add("close_parked_cases", 1)
 	c.Add("closes_checked", 1)
